@@ -164,4 +164,36 @@ example :
       s.recvU = [1, 2, 3] ∧ s.recvC = [9] := by
   decide
 
+/-- **C01, tunnel established with early payload.**  When the CONNECT request
+shares its segment with early tunnel bytes `early` (any bytes: empty, binary,
+starting with CR / LF, larger than `max_send`), both directions hold from that
+state on: downstream exactly as `C01_tunnel_down`; upstream, accepted by the
+upstream followed by queued for it is exactly `early` followed by everything
+read from the client afterwards — every client byte after the CONNECT request,
+exactly once, in order, unmodified; and no exception escapes. -/
+theorem C01_tunnel_early (m : Nat) (early : Bytes) (ticks : List Tick) :
+    (run (initTunnelEarly m early) ticks).1.sentC ++ (run (initTunnelEarly m early) ticks).1.client.buffer.flatten
+      = ack ++ (run (initTunnelEarly m early) ticks).1.recvU ∧
+    (run (initTunnelEarly m early) ticks).1.sentU ++ (run (initTunnelEarly m early) ticks).1.upstream.buffer.flatten
+      = (run (initTunnelEarly m early) ticks).1.recvC ∧
+    (∃ later, (run (initTunnelEarly m early) ticks).1.recvC = early ++ later) ∧
+    (run (initTunnelEarly m early) ticks).2 ≠ .raised := by
+  have hk : (initTunnelEarly m early).kind = .tunnel := by simp [initTunnelEarly, st0]
+  obtain ⟨segs, _, _, h3, h4, _, _⟩ := run_down ticks (initTunnelEarly m early) (by simp [hk])
+  obtain ⟨⟨later, u1, u2⟩, u3⟩ := run_up ticks (initTunnelEarly m early) hk (by simp [initTunnelEarly, st0])
+  have hU0 : U (initTunnelEarly m early) = early := by
+    unfold U initTunnelEarly st0
+    cases early <;> simp
+  refine ⟨?_, ?_, ⟨later, by rw [u1]; simp [initTunnelEarly, st0]⟩, u3⟩
+  · have : D (run (initTunnelEarly m early) ticks).1 = ack ++ (run (initTunnelEarly m early) ticks).1.recvU := by
+      rw [h4, h3]; simp [D, initTunnelEarly, st0]
+    exact this
+  · have : U (run (initTunnelEarly m early) ticks).1 = (run (initTunnelEarly m early) ticks).1.recvC := by
+      rw [u2, u1, hU0]; simp [initTunnelEarly, st0]
+    exact this
+
+/-- early payload starting with CRLF is queued as it is -/
+example : (initTunnelEarly 0 [13, 10, 22, 3]).upstream.buffer = [[13, 10, 22, 3]] ∧
+    (initTunnelEarly 0 []) = initTunnel 0 := by decide
+
 end Px.Relay
